@@ -200,20 +200,28 @@ Definition replicate (ops : opset) (ngen : Z) (loginit : bool) : step :=
  (andthen tick
       (advance ops ngen))))).
 
-(** initialisation: the five start containers come from initop.initialize( **kwargs ); the programme calls it WITHOUT the
-    [miscout] argument of the abstract interface, so an operator that declares it as required raises TypeError *)
+(** initialisation: the five start containers come from initop.initialize(miscout = None, ** kwargs) — the abstract interface
+    declares [miscout] as a required parameter and the programme passes None for it, so an operator that follows the
+    interface literally ([strict]) and one that gives it a default are called alike; the result is unpacked into the five
+    start_* setters (which accept None) *)
 Definition is_initialized (st : pstate) : bool := forallb (fun o => match o with Some _ => true | None => false end) (p_start st).
 Definition initialize (strict : bool) (res : list (option loc)) : step := fun st =>
-  if strict then (st, [], false)
-  else
-    let ev := mkEv T_INIT 0 0 0 [] [] [] [] 0 [] (p_heap st) (p_heap st) in
-    if Nat.eqb (length res) 5
-    then (mkSt (p_heap st) (p_stash st) res (p_work st) (p_t st) (p_tmax st) (p_rep st) (p_mcfg st) (p_misc st), [ev], true)
-    else (st, [ev], false).
+  let ev := mkEv T_INIT 0 0 0 [] [] [] [] 0 [] (p_heap st) (p_heap st) in
+  if Nat.eqb (length res) 5
+  then (mkSt (p_heap st) (p_stash st) res (p_work st) (p_t st) (p_tmax st) (p_rep st) (p_mcfg st) (p_misc st), [ev], true)
+  else (st, [ev], false).
+(** the call as it was before commit b17284d4, initop.initialize( ** kwargs ) without [miscout]: a strict operator raises
+    TypeError before its body runs.  Kept only to document the repaired defect (Props: C20_initialize_without_miscout_refuted) *)
+Definition initialize_old (strict : bool) (res : list (option loc)) : step := fun st =>
+  if strict then (st, [], false) else initialize strict res st.
 
 Definition evolve (ops : opset) (strict : bool) (initres : list (option loc)) (nrep ngen : Z) (loginit : bool) : step :=
   andthen (fun st => if is_initialized st then ret_ok st else initialize strict initres st)
       (iter (Z.to_nat nrep) (replicate ops ngen loginit)).
+
+Definition evolve_old (ops : opset) (strict : bool) (initres : list (option loc)) (nrep ngen : Z) (loginit : bool) : step :=
+  andthen (fun st => if is_initialized st then ret_ok st else initialize_old strict initres st)
+          (iter (Z.to_nat nrep) (replicate ops ngen loginit)).
 
 Fixpoint evolve_calls (ops : opset) (strict : bool) (initres : list (option loc)) (calls : list (Z * Z * bool)) : step :=
   match calls with
